@@ -215,7 +215,7 @@ def main(argv=None):
         print(l)
     for l in out_lines:
         print(l)
-    for x in undecided:
+    for x in undecided[:8]:
         print(f"UNDECIDED property={prop} unit={x.get('unit')} reason={x.get('reason')}: {x.get('message','')[:300]}")
         if x.get("rendered") and os.environ.get("VERIF_VERBOSE"):
             print(x["rendered"])
